@@ -45,6 +45,7 @@ RULE += "; built-in exception classes as the function's outcome; the call may be
 RULE += '; exception instances as arguments and results; concurrent.futures exception classes raised by the function'
 RULE += '; an earlier call from the same place that changed a context variable; falsy raised exceptions'
 RULE += '; a bound asynchronous method handed to another helper (enumerated); arguments whose repr raises during the call'
+RULE += '; helpers over C-implemented callables; decorated methods of equal / unhashable receivers (both enumerated)'
 LEVEL_TEXT = (
     "Differential: what the undecorated function receives, returns or raises is compared with the decorated call "
     "(identity for exceptions); inside the function the thread identity, a loop heartbeat and the caller's context "
@@ -381,6 +382,92 @@ def run_bound(case) -> Outcome:
     return out
 
 
+def _builtin_targets():
+    import math
+    import zlib
+
+    return {"len": (len, ((1, 2, 3),), 3), "abs": (abs, (-3,), 3), "crc32": (zlib.crc32, (b"x",), zlib.crc32(b"x")), "sqrt": (math.sqrt, (4.0,), 2.0)}
+
+
+def run_builtin(case) -> Outcome:
+    """a helper applied to a callable that is implemented in C (a builtin, an extension-module function: no __annotations__,
+    no __dict__, no code object): still the wrapped function - its name and docstring are kept, calls give its result"""
+    out = Outcome()
+    helper = {"asynchronous": asynchronous, "wrap_async": wrap_async, "traced": traced, "retry": retry, "cache": cache}[case["helper"]]
+    fn, args, expected = _builtin_targets()[case["fn"]]
+    tag = f"{case['helper']}-over-a-C-implemented-callable"
+    try:
+        w = helper(fn)
+    except Exception as exc:  # noqa: BLE001 - the observation
+        out.violate("meta", f"C18.builtin/decorating-failed/{tag}", repr(exc)[:200])
+        return out
+    for attr in ("__name__", "__qualname__", "__doc__"):
+        if getattr(w, attr, "<absent>") != getattr(fn, attr, "<absent>"):
+            out.violate("meta", f"C18.meta/{attr}-not-kept/{tag}", f"{getattr(w, attr, '<absent>')!r:.80} vs {getattr(fn, attr, '<absent>')!r:.80}")
+
+    async def main():
+        async with ctx.scope("builtin"):
+            r = w(*args)
+            if asyncio.iscoroutine(r) or asyncio.isfuture(r):
+                r = await r
+            return r
+
+    try:
+        r = asyncio.run(main())
+        if r != expected:
+            out.violate("meta", f"C18.result/changed/{tag}", f"{r!r} expected {expected!r}")
+    except Exception as exc:  # noqa: BLE001 - the observation
+        out.violate("meta", f"C18.exception/raised-by-the-wrapper/{tag}", repr(exc)[:200])
+    out.classes = ["C-implemented-callable"]
+    out.nontrivial = True
+    return out
+
+
+def run_receivers(case) -> Outcome:
+    """a decorated METHOD called on distinct instances that compare EQUAL (value objects: a frozen dataclass) or that cannot be
+    hashed (a dataclass with __eq__ and no __hash__): the receiver is the first argument - every call runs on ITS instance"""
+    import dataclasses
+
+    out = Outcome()
+    name = case["helper"]
+    executor = ThreadPoolExecutor(1) if name == "asynchronous_executor" else None
+    deco = {"asynchronous": asynchronous, "asynchronous_executor": asynchronous(executor=executor) if executor else None, "retry": retry, "traced": traced,
+            "retry_args": retry(limit=2), "timeout": None, "wrap": None}[name]  # fmt: skip
+
+    def body(self, x):
+        self.log.append(x)
+        return (self.tag, x)
+
+    ns = {"m": deco(body), "__annotations__": {"v": int, "tag": str, "log": list}, "tag": dataclasses.field(compare=False, default=""),
+          "log": dataclasses.field(compare=False, default_factory=list)}  # fmt: skip
+    cls = dataclasses.dataclass(frozen=case["cls"] == "eq")(type("Receiver", (), ns))
+    a, b = cls(1, "a"), cls(1, "b")
+    tag = f"{name}-method-of-{'equal' if case['cls'] == 'eq' else 'unhashable'}-instances"
+
+    async def main():
+        got = []
+        async with ctx.scope("receivers"):
+            for obj, x in ((a, 1), (b, 2), (a, 3), (b, 4)):
+                r = obj.m(x)
+                if asyncio.iscoroutine(r) or asyncio.isfuture(r):
+                    r = await r
+                got.append(r)
+        return got
+
+    try:
+        got = asyncio.run(main())
+        if got != [("a", 1), ("b", 2), ("a", 3), ("b", 4)] or a.log != [1, 3] or b.log != [2, 4]:
+            out.violate("receiver", f"C18.args/method-ran-on-another-instance/{tag}", f"results={got} a.log={a.log} b.log={b.log}")
+    except Exception as exc:  # noqa: BLE001 - the observation
+        out.violate("receiver", f"C18.exception/raised-by-the-wrapper/{tag}", repr(exc)[:200])
+    finally:
+        if executor is not None:
+            executor.shutdown(wait=True)
+    out.classes = ["equal-or-unhashable-receivers"]
+    out.nontrivial = True
+    return out
+
+
 class _nullctx:
     def __enter__(self):
         return self
@@ -394,6 +481,10 @@ def run_case(case) -> Outcome:  # noqa: C901, PLR0912, PLR0915
         return run_stack(case)
     if case.get("kind") == "bound":
         return run_bound(case)
+    if case.get("kind") == "builtin":
+        return run_builtin(case)
+    if case.get("kind") == "receivers":
+        return run_receivers(case)
     out = Outcome()
     dec, form, sig = case["dec"], case["form"], case["sig"]
     method = form in ("method", "unbound")
@@ -1025,6 +1116,12 @@ def enumerate_cases(tier):
         for fail_first in (False, True):
             for executor in (False, True):
                 yield {"kind": "bound", "outer": outer, "fail_first": fail_first, "executor": executor}
+    for helper in ("asynchronous", "wrap_async", "traced", "retry", "cache"):
+        for fn in ("len", "abs", "crc32", "sqrt"):
+            yield {"kind": "builtin", "helper": helper, "fn": fn}
+    for helper in ("asynchronous", "asynchronous_executor", "retry", "retry_args", "traced"):
+        for cls in ("eq", "unhashable"):
+            yield {"kind": "receivers", "helper": helper, "cls": cls}
 
 
 EXHAUSTIVE_MEANS = "every decorator x {function, method} called with all 34 wrapper-like names as named parameters and as extra keywords; part 'stack': every supported (outer, inner) pair of stacked decorators: timeout over none/timeout/throttle/cache/retry/traced; cache and throttle over none/retry/traced"
